@@ -9,10 +9,10 @@ open Pcore.Dispatch
 #print axioms C16_safe
 #print axioms C16_nomatch
 #print axioms C16_decl
-#print axioms buildOne_callable
-#print axioms run_tables
 #print axioms C16_run_first
 #print axioms C16_run_nomatch
 #print axioms C16_run_no_fault
 #print axioms C16_new
 #print axioms C16_new_outside
+#print axioms Alpha.C16_newm
+#print axioms Alpha.C16_ctor_no_fault
